@@ -76,6 +76,7 @@ def boot(conf_files=None):
     settings['TCP_KEEPALIVE'] = False
     derive_cache_limits(settings)
     remember_default_handlers()
+    _silence_twisted()
     _booted = True
   return settings
 
@@ -162,6 +163,11 @@ class LogCapture(object):
 def reset_state():
   """Reset carbon's module-level singletons to their import-time condition."""
   from carbon import state, events, instrumentation
+  from carbon.conf import settings
+  # carbon itself assigns some settings as *attributes* (settings.MIN_TIMESTAMP_LAG = 0 at shutdown,
+  # the derived cache limits in conf.py); instance attributes shadow the dict keys for attribute
+  # readers and would leak from one execution into the next.
+  vars(settings).clear()
   state.metricReceiversPaused = False
   state.cacheTooFull = False
   state.client_manager = None
@@ -197,3 +203,12 @@ def _default_handlers():
 
 def remember_default_handlers():
   _default_handlers()
+
+
+def _silence_twisted():
+  """Until logging is started Twisted prints every logged failure to stderr; start it with an observer
+  that drops everything (harnesses add their own capturing observers)."""
+  from twisted.python import log as tlog
+  if not getattr(tlog, '_verif_started', False):
+    tlog.startLoggingWithObserver(lambda event: None, setStdout=False)
+    tlog._verif_started = True
